@@ -21,6 +21,7 @@ type Options struct {
 	Maps       bool // additionalProperties
 	AnyType    bool // empty schema {}
 	Docs       bool // descriptions (multi-paragraph, shared between items) and deprecated flags
+	DocsDense  bool // with Docs: nearly every item is described and half of them deprecated
 	Names      func(t *rapid.T, label string) string
 }
 
@@ -309,7 +310,7 @@ func (g *genCtx) gen(t *rapid.T, depth int) *Schema {
 		s.Nullable = true
 	}
 	if g.opt.Docs && s.Ref == "" {
-		s.Description, s.Deprecated = DrawDocs(t)
+		s.Description, s.Deprecated = DrawDocs(t, g.opt.DocsDense)
 	}
 	return s
 }
@@ -400,13 +401,19 @@ var DocTexts = []string{
 	"Line one\nLine two\nLine three\nLine four\nLine five",
 	"A description with */ and // and `backticks` and \"quotes\".\n\nAnd a second paragraph.",
 	"Deprecated: use something else.\n\nDetails follow in this paragraph.\n\n- item\n- item",
+	"One\nTwo\nThree",
+	"1\n2\n3\n4\n5\n6\n7",
 }
 
-// DrawDocs draws a description (empty most of the time) and a deprecated flag.
-func DrawDocs(t *rapid.T) (string, bool) {
+// DrawDocs draws a description (empty most of the time unless dense) and a deprecated flag.
+func DrawDocs(t *rapid.T, dense bool) (string, bool) {
 	d := ""
-	if rapid.IntRange(0, 2).Draw(t, "hasdoc") == 0 {
+	has, dep := 2, 3
+	if dense {
+		has, dep = 0, 1
+	}
+	if rapid.IntRange(0, has).Draw(t, "hasdoc") == 0 {
 		d = rapid.SampledFrom(DocTexts).Draw(t, "doc")
 	}
-	return d, rapid.IntRange(0, 3).Draw(t, "deprecated") == 0
+	return d, rapid.IntRange(0, dep).Draw(t, "deprecated") == 0
 }
